@@ -71,6 +71,13 @@ CHECKS = {
         "Trusted: structural NaN-/type-aware equality; reserved-prefix strings and non-string keys (except pickle) are outside the generated domain; another process image = cleared process-local cache.",
         "DESIGN.md 3 C15, A.11",
     ),
+    "C05": (
+        "exploration",
+        "Hypothesis over generated results/exceptions x serializer x backend x threshold (round-trip through set_invocation_result/exception and a fresh client-side invocation) + bounded-preemption schedule search of a polling reader against a finishing worker",
+        "Every generated outcome is written through the orchestrator and read back by a fresh client object: SUCCESS gives an equal value, FAILED raises the same exception type and args, every non-final status refuses; a reader actor polling status/get_final_result is interleaved with the worker at line/statement granularity (all schedules with <= 1, thorough 2, forced switches): a final status is never observed without its result/exception, a value never while non-final.",
+        "Trusted: structural equality; client = fresh invocation object with cleared process-local cache; scheduler stand-ins.",
+        "DESIGN.md 3 C05",
+    ),
 }
 
 NOT_YET = "check not built yet in this session (work in progress, see DESIGN.md section 3)"
